@@ -386,6 +386,23 @@ def c09_tables(rep, tier, seed):
                 else:
                     rep.violation(f"finite:math:{st}:{fn}:{argdt.name}", nm + f"; got {emitted!r} in {text!r}",
                                   dict(obligation=nm, text=text, how_to_replay=f"Formatter({st!r})(L.MathFunction({fn!r}, [Symbol of dtype {argdt.name}]))"))
+        # two-argument functions with arguments of different types: a complex (SCALAR) FIRST argument needs the complex
+        # function whatever the type of the second (f**2.5, f**n); a real-typed first argument with a complex second one is
+        # not reachable (UFL does not terminate on non-literal exponents in complex mode) and is not checked
+        if is_complex:
+            for fn in ("power",):
+                rbase, cbase = C99_BASE[fn]
+                for second, what in ((L.Symbol("e", L.DataType.REAL), "REAL symbol"), (L.LiteralFloat(2.5), "float literal"), (L.LiteralInt(3), "integer literal"),
+                                     (L.Symbol("n", L.DataType.INT), "INT symbol")):
+                    text = fmt(L.MathFunction(fn, [L.Symbol("a0", L.DataType.SCALAR), second]))
+                    emitted = text.split("(", 1)[0]
+                    allowed = {cbase + "f", cbase} if single else {cbase}
+                    nm = f"Formatter({st}): {fn}(SCALAR, {what}) is emitted as one of {sorted(allowed)}"
+                    if emitted in allowed:
+                        rep.ob(nm, "proved", "exhaustive-finite", "exhaustive")
+                    else:
+                        rep.violation(f"finite:math:{st}:{fn}:SCALAR,{what}", nm + f"; got {emitted!r} in {text!r}",
+                                      dict(obligation=nm, text=text, how_to_replay=f"Formatter({st!r})(L.MathFunction({fn!r}, [SCALAR symbol, {what}]))"))
         # literals: complex literal is (re+I*im), real literal is a plain number
         t = fmt(L.LiteralFloat(1.5 - 2.25j))
         nm = f"Formatter({st}): complex literal printed as (re+I*im)"
